@@ -343,6 +343,16 @@ func describeAval(v aval) string {
 }
 
 func (e *absEnv) binop(op token.Token, a, b aval) aval {
+	// two interface values are equal when their dynamic values are (pointer identity, strings, numbers)
+	if x, ok := a.(aiface); ok {
+		if y, ok := b.(aiface); ok && (op == token.EQL || op == token.NEQ) {
+			_, px := x.val.(aptr)
+			_, py := y.val.(aptr)
+			if px && py {
+				return e.binop(op, x.val, y.val)
+			}
+		}
+	}
 	if v, ok := strBinop(op, a, b); ok {
 		return v
 	}
@@ -758,6 +768,24 @@ func (e *absEnv) call(fn *ssa.Function, args []aval, free []aval, depth int) ava
 						}
 					}
 					fr.defers = append(fr.defers, func() { e.call(f, args, free, depth+1) })
+				} else if !cc.IsInvoke() {
+					// a deferred call of something the abstraction models (sync/atomic, an oracle)
+					name := calleeName(&cc)
+					fr.defers = append(fr.defers, func() {
+						if e.ext != nil {
+							if _, ok := e.ext(name, args); ok {
+								return
+							}
+						}
+						if _, ok := e.strCall(name, args); ok {
+							return
+						}
+						e.stdCall(fr, name, args, depth)
+					})
+				} else if e.ext != nil {
+					recvArgs := append([]aval{e.val(fr, cc.Value)}, args...)
+					mname := "invoke:" + cc.Method.Name()
+					fr.defers = append(fr.defers, func() { e.ext(mname, recvArgs) })
 				}
 			case *ssa.RunDefers:
 				for i := len(fr.defers) - 1; i >= 0; i-- {
